@@ -1207,7 +1207,7 @@ func (kmc *KeystoreManagerForPoC) DeleteKeystore(accountID string, privPassphras
 		}
 
 		err = db.Update(kmc.db, func(dbTransaction db.DBTransaction) error {
-			if addrManager.destroy(dbTransaction) != nil {
+			if err := addrManager.destroy(dbTransaction); err != nil {
 				logging.CPrint(logging.ERROR, "delete account failed",
 					logging.LogFormat{
 						"err": err,
